@@ -1,6 +1,6 @@
 SPECIFICATION Spec
 CONSTANTS
-  Mode = "struct"
+  Mode = "all"
   MaxLen = 2
   Kinds = {"raw", "bs", "hex", "hex6"}
 INVARIANTS SpecRoundTrip Emit
